@@ -62,6 +62,9 @@ def normalize_transform(transf):
     # jumped entries (J) take their default value: no displacement, m = 1
     transf = [0.0 if value is None and i < 3 else value
               for i, value in enumerate(transf)]
+    if len(transf) > 13:
+        raise TransformationError('Transformations have at most 13 entries, '
+                                  f'but {len(transf)} were given.')
     if len(transf) == 13 and transf[-1] is None:
         transf[-1] = 1
     if len(transf) == 13 and transf[-1] != 1:
